@@ -76,6 +76,26 @@ TREES = {
     # two sibling directories whose names differ only by case; cwd-relative patterns are tried from inside one of them
     "casecwd": [F("r/src/x"), F("r/src/d/x.txt"), F("R/src/x"), F("R/src/d/x.txt"), F("R/other/x")],
 }
+
+
+def _wide():
+    """Directories with many entries, around powers of two and not multiples of them (listing is done in blocks, entries
+    are handed to workers in batches): 255, 256, 257, 300, 513 and 1025 entries; hidden entries and sub-directories are
+    spread over the listing, the last entries (by name and - created in this order - by inode number) included."""
+    out = []
+    for n in (255, 256, 257, 300, 513, 1025):
+        for i in range(n):
+            d = "r/w%d" % n
+            if i % 97 == 5:
+                out.append(F("%s/.h%04d" % (d, i)))
+            elif i % 101 == 7 or i == n - 2:
+                out.append(F("%s/s%04d/x" % (d, i)))
+            else:
+                out.append(F("%s/f%04d" % (d, i), 1 + i % 2))
+    return out
+
+
+TREES["wide"] = _wide()
 QUICK_TREES = ["nest", "ignore", "ignore_bad", "links", "names", "links2", "collide"]
 
 NAME_PATTERNS = ["x", "*.txt", "f?", "[fx]*", "{x,y}.txt", "X", "*.LOG", "\\x"]
@@ -352,6 +372,8 @@ def opt_args(o, tree_root):
         a.append("--regex")
     if o.get("ignore_case"):
         a.append("--ignore-case")
+    if o.get("threads"):
+        a += ["--threads", str(o["threads"])]
     return a
 
 
@@ -461,6 +483,14 @@ def cases(tier, seed):
                                 out.append({"tree": tname, "o": dict(po, depth=depth, hidden=hidden, no_ignore=no_ignore,
                                                                       follow=follow, report_links=rl),
                                             "cwd": cwd, "roots": ["r"]})
+    # wide directories (many entries): the complete listing must be visited whatever the count is
+    for o in ({}, {"hidden": True}, {"depth": 2}, {"hidden": True, "no_ignore": True, "depth": 3}, {"name": ["f*1"]},
+              {"path": ["**/w3*/**"], "hidden": True}, {"exclude": ["**/f*0"]}, {"follow": True, "hidden": True},
+              {"min": 2, "max": 2}, {"threads": "1"}, {"threads": "1", "hidden": True}, {"report_links": True, "depth": 2}):
+        for roots in (["r"], ["r/w257", "r/w300", "r/w1025"]):
+            if quick and roots != ["r"] and len(o) > 1:
+                continue
+            out.append({"tree": "wide", "o": dict(o), "cwd": "", "roots": roots})
     # cwd-relative patterns with --ignore-case, scanned roots both inside the cwd and in a sibling that differs only by case
     for lab, po in (("path", {"path": ["src/**"]}), ("path", {"path": ["SRC/**/X"]}), ("exclude", {"exclude": ["src/**"]}),
                     ("exclude", {"exclude": ["Src/d/**"]}), ("name", {"name": ["X"]}), ("regex", {"path": ["src/.*"], "regex": True})):
